@@ -41,7 +41,7 @@ type C14Params struct {
 	Runs    []C14Run  `json:"runs"`
 }
 
-var c14Versions = []string{"4.1.0", "4.2.0", "3.3.5", "10.20.30", "4.2.0-rc1", "4.2.0-RC1", "4.2.0-rc.1", "v4.3.0", "4.4.0+build5", "4.5", "5.0.0-dev", "4.0.1-alpha-2", "4.6.0-rc2+build.7", "4.1.0+20260131.5114f85"}
+var c14Versions = []string{"4.1.0", "4.2.0", "3.3.5", "10.20.30", "4.2.0-rc1", "4.2.0-RC1", "4.2.0-rc.1", "v4.3.0", "4.4.0+build5", "4.5", "5.0.0-dev", "4.0.1-alpha-2", "4.6.0-rc2+build.7", "4.1.0+20260131.5114f85", "0.9.0", "v0.0.3-rc1", "0.10"}
 
 func shortVersions(v string) []string {
 	all := strings.Join(regexp.MustCompile(`[0-9]+`).FindAllString(v, -1), "")
@@ -301,7 +301,7 @@ func versionClass(v string) string {
 func init() {
 	register(&Property{
 		ID: "C14", Level: "exploration",
-		Rule: "scenario = 1-4 .conf / .example files rendered from a template whose marker slots the driver knows (header line in both product spellings, copyright end year in both spellings, ver:'OWASP_CRS/..', SecComponentSignature, tx.crs_setup_version; each 0-n times, two on one line; near-miss lines that are no markers; missing final newline; sometimes one of them a symbolic link to a differently named file inside the root) showing an initial version, x histories of 1-3 invocations with independent versions from the accepted spellings (x.y.z, -rc1, -RC1, -rc.1, v prefix, +build, x.y, -dev, multi-dash) and four-digit years, each under a seeded schedule. Oracle after every invocation: each file equals the template rendered with that invocation's version and year in every slot (crs_setup_version: all digits of V or the digits of major.minor.patch, one and the same reading for the whole history), all other bytes untouched (a missing final newline may be added); repeating the last invocation is a byte no-op; other files unchanged. Non-trivial = every scenario; distinct = distinct (world, history).",
+		Rule: "scenario = 1-4 .conf / .example files rendered from a template whose marker slots the driver knows (header line in both product spellings, copyright end year in both spellings, ver:'OWASP_CRS/..', SecComponentSignature, tx.crs_setup_version; each 0-n times, two on one line; near-miss lines that are no markers; missing final newline; sometimes one of them a symbolic link to a differently named file inside the root) showing an initial version, x histories of 1-3 invocations with independent versions from the accepted spellings (x.y.z, -rc1, -RC1, -rc.1, v prefix, +build, -rc2+build.7, x.y, -dev, multi-dash) and four-digit years (2021, the first year of the range, among them), each under a seeded schedule. Oracle after every invocation: each file equals the template rendered with that invocation's version and year in every slot (crs_setup_version: all digits of V or the digits of major.minor.patch, one and the same reading for the whole history), all other bytes untouched (a missing final newline may be added); repeating the last invocation is a byte no-op; other files unchanged. Non-trivial = every scenario; distinct = distinct (world, history).",
 		Gen:  genC14, Eval: evalC14,
 		QuickChecks: 1000, ThoroughChecks: 20000, Timeout: 20 * time.Second,
 		Assumptions: []string{
